@@ -538,7 +538,10 @@ impl<'a, T: Kind> Run<'a, T> {
 			}
 		}
 		for (l, r) in lines {
-			self.out.line(&l, &r);
+			// `@n`: position in the run (ignored by the driver) - the same query at a different
+			// point of the history is a different case
+			let tag = self.out.lines;
+			self.out.line(&format!("{} @{}", l, tag), &r);
 		}
 		for f in fails {
 			self.oracle_fail(f);
@@ -547,7 +550,8 @@ impl<'a, T: Kind> Run<'a, T> {
 
 	fn observe_prune_file(&mut self) {
 		let pl = PruneList::open(self.dir.join("pmmr_prun.bin")).unwrap();
-		self.out.line("store prunelist", &pl_str(&pl));
+		let tag = self.out.lines;
+		self.out.line(&format!("store prunelist @{}", tag), &pl_str(&pl));
 	}
 
 	// ---- spend patterns -----------------------------------------------------------------
@@ -740,13 +744,15 @@ impl<'a, T: Kind> Run<'a, T> {
 
 	fn history(&mut self, units: u64, max_leaves: u64) {
 		self.fresh();
+		// some histories compact often (short rewinds), some rarely (deep rewinds possible)
+		let compact_den = *self.rng.pick(&[3u64, 5, 5, 12]);
 		for u in 0..units {
 			if pmmr::n_leaves(self.bk.size) >= max_leaves {
 				break;
 			}
 			let burst = u == 0 || self.rng.chance(1, 10);
 			self.unit(burst);
-			if self.bk.chain.len() > 1 && self.rng.chance(1, 5) {
+			if self.bk.chain.len() > 1 && self.rng.chance(1, compact_den) {
 				self.compact();
 				self.observe(true, true);
 				self.observe_prune_file();
@@ -902,6 +908,210 @@ fn run_kind<T: Kind>(out: &mut Out, rng: &mut Rng, histories: u64, units: u64, m
 	print_stats(out, T::NAME, &st);
 }
 
+/// Out-of-protocol stream (model tie only, no reference oracle): rewinds to any earlier committed
+/// size (also below a compaction cutoff) with arbitrary `rewind_rm_pos`, rewinds after appends
+/// inside a unit, compaction with arbitrary `rewind_rm_pos`.  The model is a model of the code,
+/// not of the protocol, so it has to follow the implementation here too.
+fn rough<T: Kind>(out: &mut Out, rng: &mut Rng, histories: u64, steps: u64) {
+	let work = std::env::var("VERIF_WORK").expect("VERIF_WORK not set");
+	let dir = PathBuf::from(work).join(format!("rough_{}", T::NAME));
+	let mut ops: BTreeMap<&'static str, u64> = BTreeMap::new();
+	for _ in 0..histories {
+		let _ = std::fs::remove_dir_all(&dir);
+		std::fs::create_dir_all(&dir).unwrap();
+		let mut be: PMMRBackend<T> = PMMRBackend::new(&dir, true, ProtocolVersion(1), None).unwrap();
+		out.line(&format!("store new {}", T::NAME), "ok");
+		let mut size = 0u64;
+		let mut committed: Vec<u64> = vec![0];
+		let mut synced = true;
+		for _ in 0..steps {
+			let r = rng.below(100);
+			if r < 40 {
+				let e = T::gen(rng);
+				let res = catch(AssertUnwindSafe(|| {
+					let mut p = PMMR::at(&mut be, size);
+					p.push(&e).map(|_| p.size)
+				}));
+				let rhs = match res {
+					Ok(Ok(sz)) => {
+						size = sz;
+						sz.to_string()
+					}
+					Ok(Err(_)) => "err".to_string(),
+					Err(_) => "panic".to_string(),
+				};
+				out.line(&format!("store xpush {}", hex(&e.ser())), &rhs);
+				synced = false;
+				*ops.entry("xpush").or_insert(0) += 1;
+			} else if r < 62 {
+				if size == 0 {
+					continue;
+				}
+				let p = if rng.chance(9, 10) {
+					pmmr::insertion_to_pmmr_index(rng.below(pmmr::n_leaves(size)))
+				} else {
+					rng.below(size + 3)
+				};
+				let res = catch(AssertUnwindSafe(|| PMMR::at(&mut be, size).prune(p)));
+				let rhs = match res {
+					Ok(Ok(b)) => b.to_string(),
+					Ok(Err(_)) => "err".to_string(),
+					Err(_) => "panic".to_string(),
+				};
+				out.line(&format!("store xprune {}", p), &rhs);
+				synced = false;
+				*ops.entry("xprune").or_insert(0) += 1;
+			} else if r < 70 {
+				// rewind to any committed size not above the current one, arbitrary rm bitmap
+				let cands: Vec<u64> = committed.iter().cloned().filter(|c| *c <= size).collect();
+				let target = *rng.pick(&cands);
+				// stay inside what the model covers: `flush` after a rewind beyond the end of a
+				// file would zero-extend it (`set_len`), the model only truncates
+				{
+					let pl = PruneList::open(dir.join("pmmr_prun.bin")).unwrap();
+					let lp = pmmr::round_up_to_leaf_pos(target);
+					let sh = if lp == 0 { 0 } else { pl.get_shift(lp - 1) };
+					let lsh = if lp == 0 { 0 } else { pl.get_leaf_shift(lp) };
+					if lp.saturating_sub(sh) > be.hash_size()
+						|| pmmr::n_leaves(lp).saturating_sub(lsh) > be.data_size()
+						|| lp < sh || pmmr::n_leaves(lp) < lsh
+					{
+						*ops.entry("xrewind-skipped(beyond file end)").or_insert(0) += 1;
+						continue;
+					}
+				}
+				let mut rm = Bitmap::new();
+				let nl = pmmr::n_leaves(size);
+				if nl > 0 {
+					for _ in 0..rng.range(0, 4) {
+						rm.add((pmmr::insertion_to_pmmr_index(rng.below(nl)) + 1) as u32);
+					}
+				}
+				let res = catch(AssertUnwindSafe(|| {
+					let mut p = PMMR::at(&mut be, size);
+					p.rewind(target, &rm).map(|_| p.size)
+				}));
+				let rhs = match res {
+					Ok(Ok(sz)) => {
+						size = sz;
+						sz.to_string()
+					}
+					Ok(Err(_)) => "err".to_string(),
+					Err(_) => "panic".to_string(),
+				};
+				out.line(&format!("store xrewind {} {}", target, bm_list(&rm)), &rhs);
+				synced = false;
+				*ops.entry("xrewind").or_insert(0) += 1;
+			} else if r < 82 {
+				let ok = catch(AssertUnwindSafe(|| be.sync().is_ok()));
+				out.line("store sync", match ok {
+					Ok(true) => "ok",
+					Ok(false) => "err",
+					Err(_) => "panic",
+				});
+				committed.retain(|c| *c < size);
+				committed.push(size);
+				synced = true;
+				*ops.entry("sync").or_insert(0) += 1;
+			} else if r < 87 {
+				be.discard();
+				out.line("store discard", "ok");
+				size = be.unpruned_size();
+				out.line(&format!("store xsetsize {}", size), "ok");
+				synced = true;
+				*ops.entry("discard").or_insert(0) += 1;
+			} else if r < 92 {
+				if !synced {
+					continue;
+				}
+				let cutoff = *rng.pick(&committed);
+				let mut rm = Bitmap::new();
+				let nl = pmmr::n_leaves(size);
+				if nl > 0 {
+					for _ in 0..rng.range(0, 5) {
+						rm.add((pmmr::insertion_to_pmmr_index(rng.below(nl)) + 1) as u32);
+					}
+				}
+				let ok = catch(AssertUnwindSafe(|| be.check_compact(cutoff, &rm).is_ok()));
+				out.line(
+					&format!("store compact {} {}", cutoff, bm_list(&rm)),
+					match ok {
+						Ok(true) => "ok",
+						Ok(false) => "err",
+						Err(_) => "panic",
+					},
+				);
+				*ops.entry("compact").or_insert(0) += 1;
+			} else if r < 95 {
+				if !synced {
+					continue;
+				}
+				drop(be);
+				be = PMMRBackend::new(&dir, true, ProtocolVersion(1), None).unwrap();
+				out.line("store reopen", "ok");
+				*ops.entry("reopen").or_insert(0) += 1;
+			} else {
+				// observe (model only)
+				let tag = out.lines;
+				let usize_ = be.unpruned_size();
+				out.line(
+					&format!("store xsizes @{}", tag),
+					&format!("{} {}", be.hash_size(), be.data_size()),
+				);
+				let pmmr: PMMR<'_, T, _> = PMMR::at(&mut be, size);
+				if std::env::var("VERIF_STORE_VERBOSE").is_ok() {
+					for i in 0..pmmr::n_leaves(size) {
+						let p = pmmr::insertion_to_pmmr_index(i);
+						if p < size {
+							out.line(
+								&format!("store xdata {} @{}", p, tag),
+								&match pmmr.get_data(p) {
+									Some(d) => hex(&d.ser()),
+									None => "none".into(),
+								},
+							);
+						}
+					}
+				}
+				out.line(&format!("store xroot @{}", tag), &root_str(pmmr.root()));
+				out.line(&format!("store usize_mid @{}", tag), &usize_.to_string());
+				let leaves: Vec<u64> = pmmr.leaf_pos_iter().collect();
+				out.line(&format!("store xleaves @{}", tag), &nat_list(&leaves));
+				let mut cat: Vec<u8> = vec![];
+				for i in 0..pmmr::n_leaves(size) {
+					let p = pmmr::insertion_to_pmmr_index(i);
+					if p >= size {
+						continue;
+					}
+					cat.extend_from_slice(&p.to_be_bytes());
+					if let Some(d) = pmmr.get_data(p) {
+						cat.extend_from_slice(&d.ser());
+					}
+					if let Some(h) = pmmr.get_hash(p) {
+						cat.extend_from_slice(h.as_bytes());
+					}
+				}
+				out.line(&format!("store xleafobs @{}", tag), &hex(blake(&cat).as_bytes()));
+				let mut nones: Vec<u64> = vec![];
+				let mut cat: Vec<u8> = vec![];
+				for p in 0..size {
+					match pmmr.get_from_file(p) {
+						Some(h) => cat.extend_from_slice(h.as_bytes()),
+						None => nones.push(p),
+					}
+				}
+				out.line(
+					&format!("store xfile @{}", tag),
+					&format!("{} {}", nat_list(&nones), hex(blake(&cat).as_bytes())),
+				);
+				*ops.entry("observe").or_insert(0) += 1;
+			}
+		}
+	}
+	let v: Vec<String> = ops.iter().map(|(k, v)| format!("{}={}", k, v)).collect();
+	out.raw(&format!("#STAT [rough-{}] out-of-protocol ops: {}", T::NAME, v.join(" ")));
+}
+
 fn main() {
 	quiet_panics();
 	let args: Vec<String> = std::env::args().collect();
@@ -909,12 +1119,17 @@ fn main() {
 	let mut rng = Rng::new(seed_from_env());
 	let thorough = tier_thorough();
 	let mut out = Out::stdout();
-	let (histories, units, max_leaves) = if thorough { (24, 120, 400) } else { (6, 60, 220) };
+	let (histories, units, max_leaves) = if thorough { (40, 120, 400) } else { (14, 70, 220) };
 	if mode == "fixed" || mode == "all" {
 		run_kind::<Elem>(&mut out, &mut rng, histories, units, max_leaves);
 	}
 	if mode == "var" || mode == "all" {
 		run_kind::<VarElem>(&mut out, &mut rng, histories, units, max_leaves * 2 / 3);
+	}
+	if mode == "rough" || mode == "all" {
+		let (h, n) = if thorough { (20, 600) } else { (6, 400) };
+		rough::<Elem>(&mut out, &mut rng, h, n);
+		rough::<VarElem>(&mut out, &mut rng, h, n);
 	}
 	if mode == "prunelist" || mode == "all" {
 		let work = std::env::var("VERIF_WORK").expect("VERIF_WORK not set");
